@@ -19,10 +19,12 @@
 (***************************************************************************)
 EXTENDS LatticeOps
 
-CONSTANTS R0, RR, Wall, MaxOld, NSteps, MaxLengths
+CONSTANTS R0, RR, Wall, MaxOld, NSteps, MaxLengths,
+          WfPlus      \* BOOLEAN: [0+] is a wire-fencing ensemble: the swap then also passes a Metropolis step on the
+                      \* high-acceptance weights, accepted with probability min(1, w(new [0+]) / w(old [0+]))
 
-VARIABLES old0, old1, back, forw, maxlength, done, res
-vars == <<old0, old1, back, forw, maxlength, done, res>>
+VARIABLES old0, old1, back, forw, maxlength, xi, done, res
+vars == <<old0, old1, back, forw, maxlength, xi, done, res>>
 
 Unit(p) == \A k \in 1..(Len(p) - 1) : p[k+1] - p[k] \in {-1, 0, 1}
 MinusPaths == {p \in UNION {[1..k -> Wall..R0] : k \in 3..MaxOld} : MemberMinus(p, R0) /\ Unit(p)
@@ -36,6 +38,7 @@ Scripted(x0, steps, l, r, ml) == Walk(x0, steps, l, r, Wall)[2] \/ ml - 1 <= NSt
 Init == /\ old0 \in MinusPaths /\ old1 \in PlusPaths
         /\ back \in StepSeqs /\ forw \in StepSeqs
         /\ maxlength \in MaxLengths
+        /\ xi \in (IF WfPlus THEN {"below", "above"} ELSE {"below"})       \* the drawn number relative to the weight ratio
         /\ Scripted(old1[1], back, Wall - 1, R0, maxlength) /\ Scripted(old0[Len(old0)], forw, R0 - 1, RR, maxlength)
         /\ done = FALSE /\ res = <<>>
 
@@ -55,10 +58,16 @@ Apply ==
          ok0  == wb[2] /\ Len(new0) >= 3 /\ MemberMinus(new0, R0)
          ok1  == wf[2] /\ Len(new1) >= 3 /\ MemberPlus(new1, R0 - 1, R0, RR)
          edge == (ok0 /\ Len(new0) = maxlength) \/ (ok1 /\ Len(new1) = maxlength)
-         acc  == ok0 /\ ok1 /\ Len(new0) < maxlength /\ Len(new1) < maxlength
-     IN res' = [new0 |-> new0, new1 |-> new1, complete0 |-> wb[2], complete1 |-> wf[2],
+         geo  == ok0 /\ ok1 /\ Len(new0) < maxlength /\ Len(new1) < maxlength
+         wOld == HAWeight(old1, R0, RR)
+         wNew == IF ok1 THEN HAWeight(new1, R0, RR) ELSE 0
+         sure == wOld = 0 \/ wNew >= wOld                   \* the ratio is at least one (or undefined: the code then accepts)
+         acc  == geo /\ (~WfPlus \/ sure \/ xi = "below")
+     IN res' = [new0 |-> new0, new1 |-> new1, complete0 |-> wb[2], complete1 |-> wf[2], wold |-> wOld, wnew |-> wNew,
+                geometric |-> geo,
+                empty |-> WfPlus /\ geo /\ sure /\ xi = "above",      \* no number above a ratio >= 1 exists: the class is empty
                 verdict |-> IF acc THEN "accept" ELSE IF ok0 /\ ok1 /\ edge THEN "free" ELSE "reject"]
-  /\ UNCHANGED <<old0, old1, back, forw, maxlength>>
+  /\ UNCHANGED <<old0, old1, back, forw, maxlength, xi>>
 Next == Apply
 Spec == Init /\ [][Next]_vars
 
